@@ -57,7 +57,7 @@ def cases(tier, seed):
         tuples = [tuples[i] for i in sorted(idx)]
     out = [{"T": t[0], "p": t[1], "f": t[2], "dt": t[3], "s": t[4], "layout": 0} for t in tuples]
     # a few long trajectories and large step counts (beyond the swept bound; realistic sizes)
-    out += [{"T": T, "p": p, "f": f, "dt": dt, "s": s_, "layout": 2} for (T, p, f, dt, s_) in ((60, 4, 3, 3, 2), (48, 8, 6, 2, 5), (40, 1, 1, 7, 0), (33, 5, 2, 4, 9), (25, 6, 6, 1, 1), (64, 10, 10, 3, 3))]
+    out += [{"T": T, "p": p, "f": f, "dt": dt, "s": s_, "layout": 2} for (T, p, f, dt, s_) in ((60, 4, 3, 3, 2), (48, 8, 6, 2, 5), (40, 1, 1, 7, 0), (40, 5, 2, 4, 9), (25, 6, 6, 1, 1), (64, 10, 10, 3, 3))]
     if tier == "thorough":  # every tuple with a second, independently drawn signature/constant/downsample/batch layout
         out += [{"T": t[0], "p": t[1], "f": t[2], "dt": t[3], "s": t[4], "layout": 1} for t in tuples]
     return out
